@@ -461,6 +461,7 @@ func checkGraph(c *core.Ctx, g *obikmer.DeBruijnGraph, k int, input map[string]a
 	}
 	if !hc && !acyclic {
 		violate(c, "hascycle:false-negative", "HasCycle misses a cycle", with(nil))
+		return // the path search of the library would not terminate on this graph
 	}
 
 	// neighbourhoods and sources
@@ -909,13 +910,13 @@ func init() {
 			"a key type is used only for k-mer sizes it can hold (2k <= width)",
 		},
 		Subs: []core.Sub{
-			{Name: "weights", N: core.Const(64, 512), Run: runWeights, Shard: 2, TimeoutS: 3600},
-			{Name: "path", N: core.Const(64, 512), Run: runPath, Shard: 2, TimeoutS: 3600},
-			{Name: "cycle", N: core.Const(64, 512), Run: runCycle, Shard: 2, TimeoutS: 3600},
-			{Name: "identity", N: core.Const(32, 256), Run: runIdentity, Shard: 2, TimeoutS: 3600},
-			{Name: "canonical", N: core.Const(nCombos, nCombos*6), Run: runCanonical, Shard: 4, TimeoutS: 3600},
+			{Name: "weights", N: core.Const(64, 512), Run: runWeights, Shard: 2, TimeoutS: 600},
+			{Name: "path", N: core.Const(64, 512), Run: runPath, Shard: 2, TimeoutS: 600},
+			{Name: "cycle", N: core.Const(64, 512), Run: runCycle, Shard: 2, TimeoutS: 600},
+			{Name: "identity", N: core.Const(32, 256), Run: runIdentity, Shard: 2, TimeoutS: 600},
+			{Name: "canonical", N: core.Const(nCombos, nCombos*6), Run: runCanonical, Shard: 4, TimeoutS: 600},
 			{Name: "kmersim-e2e", N: core.Const(4, 24), Run: runKmerSimE2E},
-			{Name: "fourmer", N: core.Const(32, 256), Run: runFourmer, Shard: 2, TimeoutS: 3600},
+			{Name: "fourmer", N: core.Const(32, 256), Run: runFourmer, Shard: 2, TimeoutS: 600},
 		},
 		Cmds:          []string{"obikmersimcount"},
 		MinNontrivial: 500,
